@@ -165,3 +165,16 @@ Lemma context_shape_as_modelled :
   /\ ctxshape_discover_dims_fresh = true /\ ctxshape_boards_copied = true
   /\ List.length ctxshape_functions = 22%nat.
 Proof. repeat split; reflexivity. Qed.
+
+(* one chip refuses one command inside two nested application blocks: the SCPError travels outward, and both
+   blocks still send their stop (application_stop holds for every block body and every way of leaving it) *)
+Lemma ex_refused_instance :
+  run_ops ex_ctl "MC"
+    [ OTry [ OApp [VInt 17] [] [ OApp [VInt 30] [] [ OCallRefused "sdram_free" [VInt 4; VInt 1; VInt 2] [] ] false ] false ] ]
+    [[("app_id", VInt 66)]]
+  = ([EvCall "sdram_free" ([MkWire 1 0 (VInt 1) (VInt 2) (VInt 0) (VInt SCP_alloc_free)
+                                   [(0%nat, 0, 255, Alloc_free_sdram_by_ptr)] []], Some ScpErr);
+      EvStop ([stop_wire 3 (VInt 30)], None);
+      EvStop ([stop_wire 3 (VInt 17)], None)],
+     [[("app_id", VInt 66)]], false).
+Proof. vm_compute. reflexivity. Qed.
